@@ -62,6 +62,14 @@ def build_history(case):
             desc["silent"] = False
             hist = [(p0, {"kind": "initial"}), (p1, desc)]
             prog = p1
+    if case["idx"] % 4 == 3:
+        # aimed: a variable takes the value that another variable read by the same function already holds
+        made = progs.make_equal_vars(prog)
+        if made is not None:
+            p0, p1, desc = made
+            desc["silent"] = False
+            hist = [(p0, {"kind": "initial"}), (p1, desc)]
+            prog = p1
     for k in range(case["edits"] - (len(hist) - 1)):
         prog, desc = progs.random_edit(rng, prog)
         # now and then several edits arrive before anything is called again
